@@ -45,7 +45,7 @@ cocls::async<void> k5(cocls::thread_pool &pool, cocls::future<long> &f, int j) {
     catch (const cocls::await_canceled_exception &) { cancelled(j); }
     dsim::cell_set(FIN + j, 1);
 }
-struct Token { int j; explicit Token(int j) : j(j) {} ~Token() { dsim::cell_add(TOKEN_GONE + j, 1); } };
+struct Token { int j; explicit Token(int j) : j(j) {} ~Token() { vs::cell_add_hb(TOKEN_GONE + j, 1); } };
 
 void do_stop(cocls::thread_pool &pool) { dsim::cell_set(STOP_CALLED, 1); pool.stop(); dsim::cell_add(STOP_RETURNED, 1); }
 
@@ -127,7 +127,7 @@ void dsim_scenario() {
                 pl.run_detached([&pl, j = dep_q, tq, dp = std::move(dp)]() mutable { ran(pl, j); dp(); });       // ... this one has run (or was cancelled: the dropped promise resolves too)
                 tp.reset(); tq.reset();
                 dep.sync();                                                                                      // the owner of 'dep' learns of the resolution through the library ...
-                dsim::wait_cell(TOKEN_GONE + dep_p); dsim::wait_cell(TOKEN_GONE + dep_q);                        // ... and both closures are gone before 'dep' leaves scope
+                vs::wait_cell_hb(TOKEN_GONE + dep_p); vs::wait_cell_hb(TOKEN_GONE + dep_q);                        // ... and both closures are gone before 'dep' leaves scope
             }
             for (int k = 0; k < njobs[s]; k++) submit(*pool, kinds[s][k], jid[s][k], stop_mode, bare[s]);
         });
